@@ -173,8 +173,10 @@ def _check_one(f, args, max1, max2, size, viols, st):
         viols.append({'sig': 'exception:' + type(e).__name__, 'what': '%s for %r' % (e, args), 'detail': {'args': args}})
         return None
     try:
+        import numbers
         n1, n2 = int(got[0]), int(got[1])
-        ok = (n1 == got[0] and n2 == got[1])
+        # process counts are used as array extents and slice bounds: 2.0 == 2 is not good enough
+        ok = (n1 == got[0] and n2 == got[1] and isinstance(got[0], numbers.Integral) and isinstance(got[1], numbers.Integral))
     except Exception:
         ok = False
         n1 = n2 = None
